@@ -300,35 +300,55 @@ def _r3(chk, repo):
     for spec in ("cuqi/distribution/_gaussian.py:Gaussian._sample", "cuqi/distribution/_gmrf.py:GMRF._sample"):
         fn_src = repo.func(spec)
         fn = canon_fn(repo, repo.cls(spec.rsplit(".", 1)[0]), fn_src, 4)
-        cg = CFG(fn)
+        # shapes for a single draw, read off the closed form of the returned value on every path with N == 1: SciPy's spsolve returns a 1-D array for a
+        # single right-hand side, so a bare spsolve(...) (not re-shaped / indexed) must not be added to the column `mean[:, newaxis]`
+        from ..pathtable import walk_all
+        from ..pattern import norm as pn
+        nparam = func_params(fn_src)[1]
         problems = []
-        outer = []
-        for c in walk_no_nested(fn):
-            if isinstance(c, ast.Call) and (call_name(c) or "").endswith("spsolve"):
-                par = getattr(c, "_parent", None)
-                # skip an spsolve that is itself the right-hand side of another spsolve
-                if isinstance(par, ast.Call) and (call_name(par) or "").endswith("spsolve"):
+        noted = [0]
+
+        def is_sps(c):
+            return isinstance(c, ast.Call) and (call_name(c) or "").endswith("spsolve")
+
+        def verdict(e):
+            from ..canon import set_parents
+            e = set_parents(ast.Expression(body=e)).body
+            bad = []
+            for c in ast.walk(e):
+                if not is_sps(c):
                     continue
-                outer.append(c)
-        for c in outer:
-            n = cg.stmt_node_containing(c)
-            guarded = any(unparse(t.ast).replace(" ", "") in ("N==1", "(N==1)") for t, lab in cg.guards_of(n))
-            par = getattr(c, "_parent", None)
-            shaped = (isinstance(par, ast.Attribute) and par.attr == "reshape") or isinstance(par, ast.Subscript)
-            if not (guarded or shaped) and isinstance(par, ast.Assign) and len(par.targets) == 1 and path_of(par.targets[0]):
-                # X = spsolve(...) ; if N == 1: X = X[:, None]   (re-shaped afterwards, before it is used)
-                X = path_of(par.targets[0])
-                for n2 in cg.nodes:
-                    a2 = n2.ast
-                    if n2.kind == "stmt" and isinstance(a2, ast.Assign) and path_of(a2.targets[0]) == X and cg.dominates(n, n2) and n2 is not n:
-                        v2 = a2.value
-                        resh = (isinstance(v2, ast.Subscript) and path_of(v2.value) == X) or \
-                               (isinstance(v2, ast.Call) and isinstance(v2.func, ast.Attribute) and v2.func.attr == "reshape" and path_of(v2.func.value) == X)
-                        if resh and any(unparse(t.ast).replace(" ", "") in ("N==1", "(N==1)") and lab == "T" for t, lab in cg.guards_of(n2)):
-                            shaped = True
-            if not (guarded or shaped):
-                problems.append(f"line {c.lineno}: spsolve(...) result is combined with mean[:, None] without handling a single "
-                                f"right-hand side (SciPy returns a 1-D array, which broadcasts to dim x dim)")
+                par = getattr(c, "_parent", None)
+                if is_sps(par) or (isinstance(par, ast.Attribute) and par.attr == "reshape") or (isinstance(par, ast.Subscript) and par.value is c):
+                    continue          # right-hand side of another solve / re-shaped / indexed
+                noted[0] += 1
+                cur = c
+                while True:
+                    up = getattr(cur, "_parent", None)
+                    if isinstance(up, ast.BinOp) and isinstance(up.op, (ast.Add, ast.Sub)):
+                        other = up.left if up.right is cur else up.right
+                        col = any(isinstance(x, ast.Subscript) and isinstance(x.slice, ast.Tuple) and len(x.slice.elts) == 2
+                                  and (path_of(x.slice.elts[1]) == "np.newaxis" or (isinstance(x.slice.elts[1], ast.Constant) and x.slice.elts[1].value is None))
+                                  for x in ast.walk(other))
+                        if col:
+                            bad.append(pn(up)[:160])
+                        break
+                    if isinstance(up, ast.BinOp) or (isinstance(up, ast.Call) and (call_name(up) or "") in ("np.real", "np.asarray", "np.array") and cur in up.args):
+                        cur = up
+                        continue
+                    break
+            return ast.Constant(value="; ".join(bad))
+        outs = walk_all(fn, {pn(f"{nparam}==1"): True}, pn, project=verdict, limit=256)
+        for kind, txt in sorted(outs, key=str):
+            if kind == "return" and txt not in ("''", '""'):
+                problems.append(f"for a single draw the 1-D result of spsolve(...) is added to the column mean[:, None] (broadcasts to dim x dim): {txt}")
+            elif kind in ("unknown", "loop"):
+                chk.unknown("C05-R3", f"{spec}/spsolve-single-rhs", site(repo, fn_src), f"path not decidable: {kind} {txt}", fn_src)
+                problems = None
+                break
+        if problems is None:
+            continue
+        outer = range(noted[0])
         chk.add("C05-R3", f"{spec}/spsolve-single-rhs", not problems, site(repo, fn_src), f"{len(outer)} spsolve result(s) special-cased for N == 1 or reshaped",
                 "; ".join(problems), fn)
 
@@ -438,11 +458,14 @@ PRODUCT_FORM = ["Normal", "Laplace", "Uniform", "Gamma", "InverseGamma", "Beta",
 
 
 def _r5(chk, repo, samplers):
+    from .common import canon_fn
     n = 0
     for ci, fn in samplers:
         if ci.name in PRODUCT_FORM and ci.module.rel.startswith("cuqi/distribution/"):
             n += 1
             problems = []
+            fn_src = fn
+            fn = canon_fn(repo, ci, fn_src, 4)        # a draw bound to a single-use temporary and transposed in the next statement is `draw(...).T`
             draws = [c for c, k in _draw_sites(fn) if k in ("global", "rng", "scipy")]
             for c in draws:
                 size = None
@@ -459,7 +482,7 @@ def _r5(chk, repo, samplers):
                 if stxt == "(self.dim,N)" and not transposed:
                     continue
                 problems.append(f"line {c.lineno}: draw of size {stxt} {'transposed' if transposed else 'not transposed'}: sample axis is not the last axis")
-            chk.add("C05-R5", f"{ci.qual}._sample/axis", not problems, site(repo, fn), "draws (N, dim) and returns the transpose", "; ".join(problems), fn)
+            chk.add("C05-R5", f"{ci.qual}._sample/axis", not problems, site(repo, fn_src), "draws (N, dim) and returns the transpose", "; ".join(problems), fn_src)
     if n < 7:
         raise AnchorError(f"{n} product-form samplers found, 7 confirmed by hand")
     # parameters indexed by the sample-count variable
